@@ -413,7 +413,13 @@ func TestPropOversize(t *testing.T) {
 		}
 		switch kind {
 		case "append":
-			size := rapid.SampledFrom([]string{"104857601", "104857601", "2147483648", "9223372036854775807"}).Draw(t, "size")
+			size := rapid.SampledFrom([]string{"104857601", "104857601", "2147483648", "9223372036854775807", "9223372036854775808", "18446744073709551615", "18446744073709551616"}).Draw(t, "size")
+			if len(size) > 19 || (len(size) == 19 && size > "9223372036854775807") {
+				// not a number64 any more: "{N+}" is then not a literal header
+				// by the grammar and what follows is not "announced" data; only
+				// the synchronising form is judged (no continuation request)
+				plusSign = ""
+			}
 			flags := rapid.SampledFrom([]string{"", "(\\Seen) ", "(\\Seen) \"01-Jan-2024 00:00:00 +0000\" "}).Draw(t, "flags")
 			input = prefix + "big APPEND INBOX " + flags + "{" + size + plusSign + "}\r\n"
 			if plusSign != "" {
@@ -421,7 +427,10 @@ func TestPropOversize(t *testing.T) {
 			}
 			what = "APPEND of " + size + " octets (limit 104857600)"
 		case "buffered":
-			size := rapid.SampledFrom([]string{"4097", "5000", "70000", "2147483648"}).Draw(t, "size")
+			size := rapid.SampledFrom([]string{"4097", "5000", "70000", "2147483648", "9223372036854775808", "18446744073709551615"}).Draw(t, "size")
+			if len(size) > 19 || (len(size) == 19 && size > "9223372036854775807") {
+				plusSign = ""
+			}
 			cmd := rapid.SampledFrom([]string{"LOGIN ", "SELECT ", "CREATE ", "LIST \"\" ", "LSUB \"\" ", "SEARCH SUBJECT ", "STATUS ", "RENAME a ", "SEARCH HEADER X-A ", "STORE 1 +FLAGS ", "COPY 1 "}).Draw(t, "cmd")
 			input = prefix + "big " + cmd + "{" + size + plusSign + "}\r\n"
 			if plusSign != "" {
